@@ -8,6 +8,9 @@ import (
 	"encoding/json"
 	"fmt"
 	"math/big"
+	"os"
+	"os/exec"
+	"path/filepath"
 	"runtime"
 	"sort"
 	"strings"
@@ -639,6 +642,14 @@ func run(c *fw.Ctx) {
 		}
 	}
 	c.Note("max_goroutines_created_inside_block_execution", goroutineDelta)
+	// every worker compares a different slice of the inputs against a restarted node process
+	var sample []Input
+	for i, in := range ins {
+		if in.Seam == "" && i%16 == c.Shard%16 && len(sample) < 24 {
+			sample = append(sample, in)
+		}
+	}
+	restartedProcessPart(c, sample)
 }
 
 func replay(c *fw.Ctx, raw json.RawMessage) {
@@ -657,7 +668,85 @@ func replay(c *fw.Ctx, raw json.RawMessage) {
 	}
 }
 
+// ---- process-history dimension: a node that created its database in this process vs. a
+// node restarted over an existing database must execute the same block identically ----
+
+func childMain(args []string) {
+	switch args[0] {
+	case "boot": // create the database (genesis) and leave
+		if err := node.Boot(node.ForksAllOn, true); err != nil {
+			panic(err)
+		}
+		os.Exit(0)
+	case "exec": // exec <inputs.json> <out.json>: boot over the existing database, execute, dump observations
+		var ins []Input
+		b, err := os.ReadFile(args[1])
+		if err != nil {
+			panic(err)
+		}
+		if err := json.Unmarshal(b, &ins); err != nil {
+			panic(err)
+		}
+		setup()
+		var out []string
+		for _, in := range ins {
+			o, _ := execute(in, fw.NewReplayChooser(nil))
+			out = append(out, o)
+		}
+		ob, _ := json.Marshal(out)
+		os.WriteFile(args[2], ob, 0o644)
+		os.Exit(0)
+	}
+	os.Exit(3)
+}
+
+func restartedProcessPart(c *fw.Ctx, ins []Input) {
+	if len(ins) == 0 {
+		return
+	}
+	exe, _ := os.Executable()
+	dir := filepath.Join(c.Scratch, "restarted-node")
+	os.MkdirAll(dir, 0o755)
+	defer os.RemoveAll(dir)
+	runChild := func(args ...string) (string, error) {
+		cmd := exec.Command(exe, append([]string{"--c01child"}, args...)...)
+		cmd.Dir = dir
+		out, err := cmd.CombinedOutput()
+		s := string(out)
+		if len(s) > 1500 {
+			s = s[len(s)-1500:]
+		}
+		return s, err
+	}
+	if out, err := runChild("boot"); err != nil {
+		c.Infra("restarted-process part: first boot failed: " + out)
+		return
+	}
+	ib, _ := json.Marshal(ins)
+	os.WriteFile(filepath.Join(dir, "inputs.json"), ib, 0o644)
+	if out, err := runChild("exec", "inputs.json", "out.json"); err != nil {
+		c.Violation("C01:restarted-process-died:"+fw.PanicSite([]byte("panic(\n"+out)), "process-history", "a node restarted over an existing database died executing the sample blocks: "+out, Case{Input: ins[0]})
+		return
+	}
+	var theirs []string
+	ob, _ := os.ReadFile(filepath.Join(dir, "out.json"))
+	json.Unmarshal(ob, &theirs)
+	for i, in := range ins {
+		mine, _ := execute(in, fw.NewReplayChooser(nil))
+		c.Eval(2)
+		if i < len(theirs) && mine != theirs[i] {
+			c.Violation("C01:diverge:env:created-database-vs-restarted-process", "process-history",
+				fmt.Sprintf("input %s: the process that created its database and a process restarted over an existing database execute the block differently\n creator  : %s\n restarted: %s", mustJSON(in), mine, theirs[i]), Case{Input: in})
+		}
+	}
+	c.Count("restarted_process_comparisons", int64(len(ins)))
+}
+
 func main() {
+	if len(os.Args) > 2 && os.Args[1] == "--c01child" {
+		childMain(os.Args[2:])
+		return
+	}
 	fw.Main(fw.Check{
 		ID: "C01", Level: "exploration",
 		Rule: "for every input block of the alphabet (asset transfers with every 1-3 entry target map over {other,self,SELF-uppercase,fresh} x amounts x JSON key orders; " +
